@@ -1050,7 +1050,7 @@ func runUnit(r *ev.Run, jobIdx int, w *world, ps poolSpec, o enumOpts) {
 // ---------------------------------------------------------------------------
 
 func worldNames() []string {
-	return []string{"plain", "halving5", "halving10", "reorg-post", "reorg-pre", "segwit-last-inactive", "segwit-first-active", "mtp-ahead", "mtp-equal", "advanced"}
+	return []string{"plain", "halving5", "halving10", "reorg-post", "reorg-pre", "segwit-last-inactive", "segwit-first-active", "mtp-ahead", "mtp-equal", "mindiff", "advanced"}
 }
 
 type job struct {
